@@ -605,6 +605,15 @@ func (env *Env) ident(n *ast.Ident) *SVal {
 	if b, ok := env.bound[n.Name]; ok {
 		return &SVal{K: KScalar, Typ: types.Typ[types.Int], T: b}
 	}
+	if n.Name == "iter" && env.loop != nil && env.fr != nil {
+		// iter: the number of iterations of the annotated loop completed so far - independent of how
+		// the loop is written (for-range, counted, stepped): (v - v_on_entry) / step for the loop's
+		// induction variable v
+		if v := env.iterCount(); v != nil {
+			return v
+		}
+		env.fail(n, "iter: the loop has no recognisable induction variable (for-range index, or a variable compared in the loop condition and advanced by a constant)")
+	}
 	if n.Name == "rangeindex" && env.loop != nil && env.fr != nil {
 		for _, p := range env.loop.phis {
 			if p.Comment == "rangeindex" {
@@ -1011,6 +1020,32 @@ func (env *Env) call(n *ast.CallExpr) *SVal {
 				env.fail(n, "arg[T](k) used outside an at-call clause or out of range")
 			}
 			return env.callArgs[k]
+		}
+		if id, ok := ix.X.(*ast.Ident); ok && id.Name == "captured" {
+			// captured[T](): the one variable of type T that the closure under contract captures - a name-
+			// independent way to refer to it (a rename of the variable does not touch the contract)
+			T := env.typeOf(ix.Index)
+			if tv, ok := env.info.Types[ix.Index]; ok {
+				T = tv.Type
+			}
+			var found *SVal
+			n := 0
+			if env.ct != nil && env.ct.Fn != nil {
+				for _, fv := range env.ct.Fn.FreeVars {
+					pt, ok := fv.Type().(*types.Pointer)
+					if !ok || T == nil || !types.Identical(pt.Elem(), T) {
+						continue
+					}
+					if v, ok := env.vars["&"+fv.Name()]; ok {
+						found = v
+						n++
+					}
+				}
+			}
+			if n != 1 {
+				env.fail(ix, "captured[T](): the closure captures %d variables of that type, need exactly one", n)
+			}
+			return e.load(env.state(), e.addrOf(found))
 		}
 		if id, ok := ix.X.(*ast.Ident); ok && id.Name == "res" {
 			k := 0
@@ -1426,4 +1461,79 @@ func indexOfInstr(b *ssa.BasicBlock, in ssa.Instruction) int {
 		}
 	}
 	return -1
+}
+
+// iterCount: see the identifier "iter".
+func (env *Env) iterCount() *SVal {
+	e := env.e
+	c := e.c
+	li := env.loop
+	var ind *ssa.Phi
+	step := int64(0)
+	for _, p := range li.phis {
+		if p.Comment == "rangeindex" {
+			ind, step = p, 1
+		}
+	}
+	if ind == nil {
+		// the variable tested by the loop condition
+		var cond ssa.Value
+		if len(li.header.Instrs) > 0 {
+			if ifi, ok := li.header.Instrs[len(li.header.Instrs)-1].(*ssa.If); ok {
+				cond = ifi.Cond
+			}
+		}
+		bo, ok := cond.(*ssa.BinOp)
+		if !ok {
+			return nil
+		}
+		for _, op := range []ssa.Value{bo.X, bo.Y} {
+			if p, ok := op.(*ssa.Phi); ok && p.Block() == li.header {
+				ind = p
+			}
+		}
+		if ind == nil {
+			return nil
+		}
+		for k, ed := range ind.Edges {
+			if !li.body[ind.Block().Preds[k]] {
+				continue
+			}
+			upd, ok := ed.(*ssa.BinOp)
+			if !ok || upd.Op != token.ADD {
+				return nil
+			}
+			var k2 *ssa.Const
+			if upd.X == ssa.Value(ind) {
+				k2, _ = upd.Y.(*ssa.Const)
+			} else if upd.Y == ssa.Value(ind) {
+				k2, _ = upd.X.(*ssa.Const)
+			}
+			if k2 == nil || k2.Value == nil {
+				return nil
+			}
+			st := k2.Int64()
+			if st <= 0 || (step != 0 && st != step) {
+				return nil
+			}
+			step = st
+		}
+		if step == 0 {
+			return nil
+		}
+	}
+	hv, ok := env.fr.vals[ind]
+	if !ok || hv.T == nil {
+		return nil
+	}
+	entry, ok := li.initMap[hv.T]
+	if !ok {
+		return nil
+	}
+	w := hv.T.S.W
+	d := c.BVBin("bvsub", hv.T, entry)
+	if step != 1 {
+		d = c.BVBin("bvsdiv", d, c.BVLit(uint64(step), w))
+	}
+	return &SVal{K: KScalar, Typ: types.Typ[types.Int], T: c.Resize(d, 64, true)}
 }
